@@ -140,6 +140,7 @@ fn shrink_stmt(s: &Stmt) -> Vec<Stmt> {
             }
             out.push(Stmt::Request(first.clone()));
         }
+        Stmt::CapRequest(l) => out.push(Stmt::Request(l.clone())),
         Stmt::Yield(n) if *n > 1 => out.push(Stmt::Yield(n - 1)),
         _ => {}
     }
